@@ -283,6 +283,26 @@ class ZMap(Abstract):
             return ItemsView(self)
         if attr == 'keys' and not args:
             return KeysView(self)
+        if attr == 'get' and 1 <= len(args) <= 2 and not kwargs:
+            k = to_term(args[0])
+            if it.run.branch(z3.Not(self.has[k]), where=f'mapgetd@{node.lineno}:{node.col_offset}'):
+                return args[1] if len(args) == 2 else None
+            return wrap(self.val[k])
+        if attr == 'pop' and 1 <= len(args) <= 2 and not kwargs:
+            k = to_term(args[0])
+            if it.run.branch(z3.Not(self.has[k]), where=f'mappop@{node.lineno}:{node.col_offset}'):
+                if len(args) == 2:
+                    return args[1]
+                raise Raised(KeyError('key not in map'), node)
+            v = wrap(self.val[k])
+            self.has = z3.Store(self.has, k, z3.BoolVal(False))
+            return v
+        if attr == 'setdefault' and len(args) == 2 and not kwargs:
+            k = to_term(args[0])
+            if it.run.branch(z3.Not(self.has[k]), where=f'mapsetd@{node.lineno}:{node.col_offset}'):
+                self.sym_setitem(it, args[0], args[1], node)
+                return args[1]
+            return wrap(self.val[k])
         raise Unsupported(f'dict method {attr}')
 
 
@@ -352,6 +372,17 @@ class ZMapBag(Abstract):
             return KeysView(self)
         if attr == 'items' and not args:
             return ItemsView(self)
+        if attr == 'pop' and 1 <= len(args) <= 2 and not kwargs:
+            k = to_term(args[0])
+            if it.run.branch(z3.Not(self.has[k]), where=f'mbpopkey@{node.lineno}'):
+                if len(args) == 2:
+                    return args[1]
+                raise Raised(KeyError('key not in dict'), node)
+            out = ZBag(self.esort, self.cnt[k], self.ln[k], name=self.name + '.popped')
+            self.has = z3.Store(self.has, k, z3.BoolVal(False))
+            self.cnt = z3.Store(self.cnt, k, z3.K(self.esort, z3.IntVal(0)))
+            self.ln = z3.Store(self.ln, k, z3.IntVal(0))
+            return out
         raise Unsupported(f'dict method {attr}')
 
 
